@@ -432,6 +432,35 @@ def gen_seg_long(seed, npipes, cuts_per, tags):
     return out
 
 
+def gen_seg_reuse(seed, npipes, tags):
+    """Segmentation across connections: a client leaves a proper prefix of a request behind (two reads) and closes; the
+    next client - accepted afterwards, so that it gets the same descriptor - sends a request whose first read has exactly
+    as many bytes as the first client left pending.  Base: the second client's request in one piece."""
+    rng = random.Random("segreuse/%s" % seed)
+    slots = ["A", "A2", "B", "C"]
+    out = []
+    for p in range(npipes):
+        k = rng.choice(["get", "set", "mget", "del", "set"])
+        if k in ("get", "set"):
+            r2 = {"k": k, "slots": [rng.choice(slots)], "dups": [-1]}
+        else:
+            sl, du = gen_keylist(rng, 3, slots)
+            r2 = {"k": k, "slots": sl, "dups": du}
+        blob2 = concrete(tags, "c2", 1, r2)
+        r1 = {"k": "mset", "slots": [rng.choice(slots) for _ in range(6)], "dups": [-1] * 6}
+        blob1 = concrete(tags, "c1", 1, r1)
+        n = rng.randint(6, min(len(blob2) - 2, len(blob1) - 2))
+        left = blob1[:n]
+        for v, cuts in enumerate([[], [n], [n, min(len(blob2) - 1, n + 3)], [n // 2, n]]):
+            cuts = sorted(set(c for c in cuts if 0 < c < len(blob2)))
+            steps = [{"stim": [{"op": "raw", "c": "c1", "hex": left.hex(), "cuts": [max(1, n // 2)]}]}, {"stim": []},
+                     {"stim": [{"op": "cclose", "c": "c1"}]}, {"stim": []},
+                     {"stim": [{"op": "open", "c": "c2"}]}, {"stim": []},
+                     {"stim": [{"op": "send", "c": "c2", "reqs": [r2], "cuts": cuts}]}, {"stim": [], "settle": True}] + drain_steps(2, 6)
+            out.append(_norm({"id": "segreuse-%s-%d-%d" % (seed, p, v), "role": "base" if v == 0 else "seg", "steps": json.loads(json.dumps(steps))}))
+    return out
+
+
 def gen_seg(seed, npipes, cuts_per, tags):
     """Groups of 1 + cuts_per scenarios: the unsegmented pipeline (role base) and segmented twins (role seg)."""
     rng = random.Random("seg/%s" % seed)
